@@ -96,6 +96,24 @@ func ruleC05Window(c *Ctx) {
 		}
 	}
 	c.Check(okw, "c05.window", "(*Query).exec/offset-then-limit", c.P.Pos(exec.Pos()), "rs[offset:] then [:limit] on the remainder", why)
+	// OFFSET is applied whether or not there is a LIMIT: the offset reslice is not control-dependent on limitDefinition --
+	// unless every writer of offsetDefinition also stores the row count it parsed on each of its success exits
+	// ("an offset is never set without a limit"), which is what makes skipping the window for limitDefinition == -1 sound
+	if offSl != nil {
+		dep := ""
+		for _, fc := range factsAt(offSl.Block()) {
+			if ct := tbd.Of(fc.cond); ct.HasField("limitDefinition") {
+				dep = ct.String()
+			}
+		}
+		whyU := ""
+		if dep != "" {
+			if site := offsetWithoutLimit(c); site != "" {
+				whyU = "the OFFSET reslice is reached only under a condition on limitDefinition (" + dep + "), and " + site + ": with that offset and no stored limit the rows before the offset are returned"
+			}
+		}
+		c.Check(whyU == "", "c05.window", "(*Query).exec/offset-unconditional", c.P.Pos(offSl.Pos()), "OFFSET applied on every path, or never set without a LIMIT", whyU)
+	}
 	// absent limit (-1) means all rows; absent offset means 0: decision table over the two sentinels
 	atoms := []Atom{
 		{Name: "noLimit", Dom: boolDom, Match: func(t *Term) bool {
@@ -818,4 +836,67 @@ func (c *Ctx) lessTableLoopForm(f *ssa.Function, lp *loopInfo, key string) {
 		why = append(why, fmt.Sprintf("only %d iteration paths", rows))
 	}
 	c.Check(len(why) == 0, "c05.less-table", key, c.P.Pos(f.Pos()), fmt.Sprintf("loop form: %d iteration paths agree with the comparator table; ties on every key => not less", rows), strings.Join(uniq(why), "; "))
+}
+
+// offsetWithoutLimit looks at every function of the module that stores a computed value into Query.offsetDefinition and
+// returns a description of a success exit it can reach without storing a computed value into Query.limitDefinition ("" when
+// there is none): the invariant a window code that tests the limit first relies on.
+func offsetWithoutLimit(c *Ctx) string {
+	storesOf := func(g *ssa.Function, field string) []*ssa.Store {
+		var out []*ssa.Store
+		allInstrs(g, func(_ *ssa.BasicBlock, in ssa.Instruction) {
+			st, ok := in.(*ssa.Store)
+			if !ok {
+				return
+			}
+			fa, ok := st.Addr.(*ssa.FieldAddr)
+			if !ok || fieldName(fa.X.Type(), fa.Field) != field {
+				return
+			}
+			if _, isC := st.Val.(*ssa.Const); isC {
+				return
+			}
+			out = append(out, st)
+		})
+		return out
+	}
+	for _, g := range c.P.genqlFuncs() {
+		offs := storesOf(g, "offsetDefinition")
+		if len(offs) == 0 {
+			continue
+		}
+		lims := storesOf(g, "limitDefinition")
+		for _, off := range offs {
+			for _, b := range g.Blocks {
+				if len(b.Instrs) == 0 {
+					continue
+				}
+				r, ok := b.Instrs[len(b.Instrs)-1].(*ssa.Return)
+				if !ok || !(b == off.Block() || reaches(off.Block(), b)) {
+					continue
+				}
+				failure := false
+				for i, res := range r.Results {
+					if g.Signature.Results().At(i).Type().String() == "error" {
+						if cst, isC := res.(*ssa.Const); !isC || !cst.IsNil() {
+							failure = true
+						}
+					}
+				}
+				if failure {
+					continue
+				}
+				covered := false
+				for _, lim := range lims {
+					if lim.Block() == b || lim.Block().Dominates(b) {
+						covered = true
+					}
+				}
+				if !covered {
+					return funcName(g) + " stores an offset at " + c.P.Pos(off.Pos()) + " and can return successfully at " + c.P.Pos(r.Pos()) + " without storing the row count"
+				}
+			}
+		}
+	}
+	return ""
 }
